@@ -310,3 +310,25 @@ def paircode_boundary_pair(seed, i):
     if i % 2:
         pred, refa = np.stack([pred, np.zeros_like(pred)]), np.stack([refa, np.zeros_like(refa)])
     return pred, refa
+
+
+def near_tie_pair(seed, i):
+    """large 1-D instances: one prediction P is contested by two references A and B with IoU m/(3m+1) and
+    (m+1)/(3m+4) -- they differ by 1/((3m+1)(3m+4)), i.e. 1e-6 .. 1e-9 for m = 300 .. 10000.  Unequal scores, so
+    the matching is uniquely determined, but any rounding of scores (float32, round(x, 6..8), isclose) ties them."""
+    r = rng(seed, "neartie", i)
+    m = int([300, 1000, 3000, 10000][i % 4])
+    refa = np.zeros(4 * m + 12, dtype=np.uint32)
+    pred = np.zeros_like(refa)
+    refa[0 : 2 * m] = 1                 # A, 2m voxels
+    pred[m : 3 * m + 1] = 1             # P, 2m+1 voxels: m in A, m+1 in B
+    refa[2 * m : 4 * m + 4] = 2         # B, 2m+4 voxels
+    if i % 2:                           # a second, clearly matched pair
+        refa[-5:-2] = 3
+        pred[-5:-3] = 2
+    la, lb = [(1, 2), (2, 1), (7, 3), (70000, 66000)][(i // 8) % 4]  # which of the two has the smaller label value
+    out = refa.copy()
+    out[refa == 1], out[refa == 2] = la, lb
+    if (i // 4) % 2:                    # mirror: the better candidate comes later in scan order
+        return pred[::-1].copy(), out[::-1].copy()
+    return pred, out
